@@ -358,7 +358,8 @@ def array_lies(rng):
     out = []
     bodies = [('ai', [[1, 2, 3, 4]]), ('ad', [[1.5, 2.5]]), ('aay', [[[1], [2, 3]]]), ('at', [[7]]), ('as', [['a', 'b']]),
               ('a{sv}', [[('k', refwire.Variant('u', 1))]]), ('ayai', [[1, 2, 3], [5]]),
-              ('ab', [[True, False, True]]), ('a(bb)', [[(True, True)]]), ('an', [[1, -2]]), ('ax', [[5]])]
+              ('ab', [[True, False, True]]), ('a(bb)', [[(True, True)]]), ('an', [[1, -2]]), ('ax', [[5]]),
+              ('ah', [[0, 1, 2]]), ('a(hs)', [[(0, 'x')]])]
     import struct
     for sg, body in bodies:
         for le in (True, False):
@@ -521,6 +522,14 @@ def run(tier, seed):
         out, calls, r = counted(lambda: message.parseMessage(raw, []), 4 * b)
         recs.append({'len': len(raw), 'siglen': nsig + 16, 'calls': calls, 'outcome': out, 'cpu_ms': 0, 'mem_kb': 0})
         descr.append((name, raw))
+    # the same header lies handed to a CONNECTION (framing, descriptor bookkeeping and dispatch included), not only to
+    # the parser: a client that is told of descriptors it never received
+    for name, raw, nsig in count_lies():
+        conn_, t_, _f = fakes.ready_client()
+        b = bound(len(raw), nsig + 16)
+        out, calls, r = counted(lambda: conn_.dataReceived(raw), 8 * b)
+        recs.append({'len': len(raw), 'siglen': nsig + 16, 'calls': calls // 2, 'outcome': out, 'cpu_ms': 0, 'mem_kb': 0})
+        descr.append(('to a connection: ' + name, raw))
     for j in range(len(valid)):
         iso.append((j, len(recs), {'before': before[j], 'after': decode_valid(valid[j])}))
     # ... also when the hostile message is the FIRST of its signature this process sees: its body stops after the first
